@@ -149,6 +149,10 @@ macro_rules! luma_edge {
                 r.goal("xyz_to_luma", back.luma.close($enc(v[0]), 1e-9));
                 let rgb: Rgb<$S, T> = Rgb::from_color_unclamped(palette::luma::Luma::<$S, T>::new(v[0]));
                 r.goal("luma_to_rgb_is_grey", rgb.red.close(v[0], 1e-9) & rgb.green.close(v[0], 1e-9) & rgb.blue.close(v[0], 1e-9));
+                // luma -> xyY: Y as above, (x, y) = the chromaticity of the standard's OWN white point, x = Xn / (Xn + Yn + Zn) (CIE 15)
+                let yxy: Yxy<$W, T> = Yxy::from_color_unclamped(palette::luma::Luma::<$S, T>::new(v[0]));
+                let sum = w[0] + w[1] + w[2];
+                r.goal("luma_to_yxy", yxy.luma.close(y, 1e-9) & yxy.x.close(T::k(w[0] / sum), 1e-6) & yxy.y.close(T::k(w[1] / sum), 1e-6));
                 r
             });
     }};
@@ -392,6 +396,27 @@ pub fn register(l: &mut Vec<Obl>) {
             r.goal("b", c.b.close(e[2], 1e-3));
             r
         });
+    // Oklab -> XYZ, the polynomial direction of the XYZ <-> Oklab edge, on 12 hue directions (configurations) with lightness and
+    // chroma symbolic (a cubic in two variables; with a, b both symbolic z3 does not answer in 150 s)
+    for k in 0..12 {
+        let h = (k as f64) * 30.0 + 7.0;
+        let (ch, sh) = (h.to_radians().cos(), h.to_radians().sin());
+        obl!(l; format!("c02_oklab_to_xyz_h{}", h as i32), "C02", Tier::Quick,
+            format!("Oklab -> XYZ (D65) equals Ottosson's definition (M2^-1, cube, M1^-1 with the inverses of the published matrices, computed independently) within 2e-3 (1 + |value|) for every lightness in [0,1] and chroma in [0, 0.35] at hue {} degrees (palette derives its own M1 from its D65 white point, which differs from the published one by up to 1e-4 per entry; a wrong factor in one of the cubes moves chromatic colours by far more)", h),
+            ["<Xyz<D65,T> as FromColorUnclamped<Oklab<T>>>::from_color_unclamped", "oklab::m1_inv", "oklab::m2_inv"],
+            [var("l", 0.0, 1.0), var("c", 0.0, 0.35)];
+            |v| {
+                let mut r = Res::<B>::new();
+                let (a, b) = (v[1] * T::k(ch), v[1] * T::k(sh));
+                let c: Xyz<wp::D65, T> = Xyz::from_color_unclamped(Oklab::<T>::new(v[0], a, b));
+                let e = okref::oklab_to_xyz([v[0], a, b]);
+                let near = |x: T, y: T| (x - y).abs_().le(T::k(2e-3) * (T::k(1.0) + y.abs_()));
+                r.goal("x", near(c.x, e[0]));
+                r.goal("y", near(c.y, e[1]));
+                r.goal("z", near(c.z, e[2]));
+                r
+            });
+    }
     obl!(l; "c02_linsrgb_oklab", "C02", Tier::Quick,
         "linear sRGB <-> Oklab (direct matrices) equal Ottosson's reference code within 1e-6 for RGB in [0,1]^3 resp. Oklab L in [0,1], a, b in [-0.4,0.4]",
         ["<Oklab<T> as FromColorUnclamped<Rgb<S,T>>>::from_color_unclamped", "oklab::linear_srgb_to_oklab", "<Rgb<S,T> as FromColorUnclamped<Oklab<T>>>::from_color_unclamped", "oklab::oklab_to_linear_srgb"],
